@@ -85,31 +85,83 @@ def _get_ineq_eps():
     return pvc.get_ineq_const_eps()
 
 
+_STATE_TYPES = (dict, list, set, int, float, str, bool, type(None))
+
+
+def _module_state_slots():
+    """every module-level global and class-level attribute of the loaded quara modules that holds plain data (numbers,
+    strings, None, dicts, lists, sets): the state a real worker process would have a private copy of."""
+    import types
+
+    slots = []
+    for name, mod in sorted(sys.modules.items()):
+        if mod is None or not (name == "quara" or name.startswith("quara.")):
+            continue
+        for k, v in list(vars(mod).items()):
+            if k.startswith("__") and k.endswith("__"):
+                continue
+            if isinstance(v, _STATE_TYPES) and not isinstance(v, type):
+                slots.append((mod, k))
+            elif isinstance(v, type) and v.__module__ == name:
+                for a, val in list(vars(v).items()):
+                    if a.startswith("__") and a.endswith("__"):
+                        continue
+                    if isinstance(val, _STATE_TYPES) and not isinstance(val, (types.FunctionType, property, staticmethod, classmethod)):
+                        slots.append((v, a))
+    return slots
+
+
+_BASELINE = None
+
+
+def module_state_baseline():
+    """the module / class state as it is right after import (what a freshly spawned worker process starts with)."""
+    global _BASELINE
+    if _BASELINE is None:
+        import copy
+
+        slots = _module_state_slots()
+        _BASELINE = (slots, copy.deepcopy([getattr(o, a) for o, a in slots]))
+    return _BASELINE
+
+
 class ProcGlobals:
-    """the process-global state quara's behaviour can depend on (DESIGN S3, S5)."""
+    """the process-global state quara's behaviour can depend on (DESIGN S3, S5): numpy's and python's global random
+    state, and every plain-data module global / class attribute of quara (Settings atol, the physicality-check epsilon,
+    and whatever a later version of quara may add)."""
 
     def __init__(self, np_seed, py_seed):
+        import copy
+
         st = np.random.RandomState(np_seed).get_state()
         self.np_state = st
         r = pyrandom.Random(py_seed)
         self.py_state = r.getstate()
-        self.atol = 1e-13
-        self.ineq_eps = 1e-5
+        slots, values = module_state_baseline()
+        self.slots = slots
+        self.values = copy.deepcopy(values)  # one deepcopy: objects shared between two names stay shared
 
     @staticmethod
     def capture():
         g = ProcGlobals.__new__(ProcGlobals)
         g.np_state = np.random.get_state()
         g.py_state = pyrandom.getstate()
-        g.atol = Settings.get_atol()
-        g.ineq_eps = _get_ineq_eps()
+        g.slots = module_state_baseline()[0]
+        g.values = [getattr(o, a, None) for o, a in g.slots]
         return g
 
     def install(self):
         np.random.set_state(self.np_state)
         pyrandom.setstate(self.py_state)
-        Settings.set_atol(self.atol)
-        pvc.set_ineq_const_eps(self.ineq_eps)
+        for (o, a), v in zip(self.slots, self.values):
+            try:
+                setattr(o, a, v)
+            except (AttributeError, TypeError):
+                pass
+
+    @property
+    def atol(self):
+        return Settings.get_atol()
 
     def digest_np(self):
         from simcore.util import digest
@@ -199,6 +251,14 @@ class Decider:
         if pol.get("kind") == "pct":
             est = max(10, int(pol.get("est_yields", 2000)))
             d["_points"] = sorted(self.rng.randrange(est) for _ in range(pol.get("d", 2)))
+        if pol.get("kind") == "site":
+            # pre-empt at the k-th execution (k small) of a few code locations drawn uniformly over the *locations* seen in
+            # the previous schedule: a race lives at a place in the code, not at a moment in time
+            sites = pol.get("sites") or []
+            d["_targets"] = set()
+            for _ in range(pol.get("d", 2)):
+                if sites:
+                    d["_targets"].add((self.rng.choice(sites), self.rng.choice([1, 1, 2, 3, 5])))
         self.rec["threads"].append(d)
         return d
 
@@ -241,6 +301,7 @@ class Sim:
         self.thread_phase = None
         self.switch_sites = set()
         self.phase_yields = {}
+        self.site_counts = {}
 
     def bump(self, table, key, n=1):
         table[key] = table.get(key, 0) + n
@@ -463,15 +524,15 @@ class Sim:
         fn = code.co_filename
         if not fn.startswith(self.quara_dir):
             return MON.DISABLE
-        self._yield_point(code.co_name)
+        self._yield_point(code.co_name, f"{os.path.basename(fn)}:{code.co_qualname}")
 
     def _on_line(self, code, line):
         fn = code.co_filename
         if not fn.startswith(self.quara_dir) or not fn.endswith(self.line_files):
             return MON.DISABLE
-        self._yield_point(code.co_name)
+        self._yield_point(code.co_name, f"{os.path.basename(fn)}:{code.co_qualname}:{line}")
 
-    def _yield_point(self, site):
+    def _yield_point(self, site, site_key=None):
         phase = self.thread_phase
         if phase is None:
             return
@@ -500,6 +561,14 @@ class Sim:
         else:
             pol = dec.get("_policy", {})
             do = False
+            if site_key is not None:
+                seen = phase.setdefault("site_seen", {})
+                c = seen.get(site_key, 0) + 1
+                seen[site_key] = c
+                if c <= 5:
+                    self.site_counts[site_key] = max(self.site_counts.get(site_key, 0), c)
+                if pol.get("kind") == "site" and (site_key, c) in dec.get("_targets", ()):
+                    do = True
             if pol.get("kind") == "pct":
                 pts = dec["_points"]
                 while pts and pts[0] <= y:
